@@ -3,8 +3,9 @@
 
   tools/seeds.py verify <PID> <mN> [--src /tmp/seedout]   confirm a sub-agent's change in a scratch worktree
                                                           and store it as seeded/<PID>-<mN>/
-  tools/seeds.py try <seed-dir-name> [<CHECK-ID> ...]     apply seeded/<name>/patch.diff to /repo, run the
-                                                          quick checks, undo the patch, record the result
+  tools/seeds.py try <seed-dir-name> [<CHECK-ID> ...]     apply seeded/<name>/patch.diff to a scratch worktree of
+                                                          /repo's HEAD, run the quick checks against it
+                                                          (PYTHONPATH + VERIF_OUT), remove it, record the result
   tools/seeds.py table                                    print which checks caught which seeds
 """
 import json, os, shutil, subprocess, sys, time
@@ -68,37 +69,48 @@ def verify(pid, mn, src="/tmp/seedout"):
         sh(f"git -C /repo worktree remove --force {wt}")
 
 
-def try_seed(name, checks):
+def try_seed(name, checks, tier="quick"):
+    """Run the checks against a scratch worktree of /repo's HEAD with the seeded patch applied.
+
+    The worktree is selected with PYTHONPATH (it shadows the editable install of /repo), evidence and
+    replay files go to a scratch directory (VERIF_OUT), so neither /repo nor /verif/evidence is touched
+    and several seeds can be tried at the same time.
+    """
     d = os.path.join(SEEDED, name)
     meta = json.load(open(os.path.join(d, "meta.json")))
     if not checks:
         checks = [meta["property"]]
-    assert sh("git -C /repo status --porcelain").stdout.strip() == "", "/repo not clean"
-    ap = sh(f"git -C /repo apply {d}/patch.diff")
-    if ap.returncode != 0:   # the tree has moved on (fix: commits): 3-way merge against the base blobs
-        ap = sh(f"git -C /repo apply --3way {d}/patch.diff")
-        meta["applied_with"] = "git apply --3way (fix: commits touched the same file)"
-    if not (ap.returncode == 0 and "conflict" not in (ap.stdout + ap.stderr).lower()):
-        sh("git -C /repo reset -q --hard HEAD")
-        print(f"{name}: patch does not apply to the current tree (needs a manual rebase): {ap.stderr.strip()[:200]}")
-        return
+    wt = f"/tmp/wt/try-{name}"
+    out = f"/tmp/wt/try-{name}.out"
+    sh(f"git -C /repo worktree remove --force {wt}")
+    shutil.rmtree(out, ignore_errors=True)
+    assert sh(f"git -C /repo worktree add --detach {wt}").returncode == 0
     try:
+        ap = sh(f"git -C {wt} apply {d}/patch.diff")
+        if ap.returncode != 0:   # the tree has moved on (fix: commits): 3-way merge against the base blobs
+            ap = sh(f"git -C {wt} apply --3way {d}/patch.diff")
+            meta["applied_with"] = "git apply --3way (fix: commits touched the same file)"
+        if not (ap.returncode == 0 and "conflict" not in (ap.stdout + ap.stderr).lower()):
+            print(f"{name}: patch does not apply to the current tree (needs a manual rebase): {ap.stderr.strip()[:200]}")
+            return
+        env = dict(os.environ, PYTHONPATH=f"{wt}/src", VERIF_OUT=out)
         for c in checks:
             t0 = time.time()
-            p = sh(f"cd {VERIF} && timeout -k 5 900 ./check {c} --tier quick")
+            p = sh(f"cd {VERIF} && timeout -k 5 {900 if tier == 'quick' else 7200} ./check {c} --tier {tier}", env=env)
             viol = [l for l in p.stdout.splitlines() if l.startswith("VIOLATION")]
+            ev = os.path.join(out, "evidence", f"{c}.json")
+            tree = json.load(open(ev))["coverage"].get("tree_under_test") if os.path.exists(ev) else None
             res = {"exit": p.returncode, "violations": len(viol), "wall_s": round(time.time() - t0, 1),
-                   "first": (viol[0] if viol else ""),
+                   "first": (viol[0] if viol else ""), "tier": tier, "tree_under_test": tree,
                    "detail": next((l.strip() for l in p.stdout.splitlines() if l.startswith("  clause=")), "")[:400]}
+            assert tree in (None, wt), f"check ran against {tree}, not the patched worktree"
             meta["checks"][c] = res
             print(f"{name} vs {c}: exit={p.returncode} violations={len(viol)} {res['detail'][:200]}")
             if p.returncode == 2:
                 print(p.stderr[-1500:])
     finally:
-        sh("git -C /repo reset -q --hard HEAD")
-        # evidence files were rewritten from a patched tree: restore the committed ones
-        sh(f"git -C {VERIF} checkout -- evidence")
-        shutil.rmtree(os.path.join(VERIF, "replays"), ignore_errors=True)
+        sh(f"git -C /repo worktree remove --force {wt}")
+        shutil.rmtree(out, ignore_errors=True)
     json.dump(meta, open(os.path.join(d, "meta.json"), "w"), indent=1)
 
 
@@ -116,7 +128,7 @@ def table():
 if __name__ == "__main__":
     cmd = sys.argv[1]
     if cmd == "verify":
-        verify(sys.argv[2], sys.argv[3])
+        verify(sys.argv[2], sys.argv[3], *(sys.argv[5:6] if sys.argv[4:5] == ["--src"] else []))
     elif cmd == "try":
         try_seed(sys.argv[2], sys.argv[3:])
     elif cmd == "table":
